@@ -653,18 +653,21 @@ impl<K: Kmer, D: Debug> DebruijnGraph<K, D> {
         writeln!(writer, "],").unwrap();
 
         writeln!(writer, "\"links\": [").unwrap();
+        let mut wrote_links = false;
         for i in 0..self.len() {
             let node = self.get_node(i);
-            match node.edges_to_json(writer) {
-                true => {
-                    if i == self.len() - 1 {
-                        writeln!(writer).unwrap();
-                    } else {
-                        writeln!(writer, ",").unwrap();
-                    }
+            let mut node_links = Vec::new();
+            if node.edges_to_json(&mut node_links) {
+                // separate from the previous group of links, if any
+                if wrote_links {
+                    writeln!(writer, ",").unwrap();
                 }
-                _ => continue,
+                writer.write_all(&node_links).unwrap();
+                wrote_links = true;
             }
+        }
+        if wrote_links {
+            writeln!(writer).unwrap();
         }
         writeln!(writer, "]").unwrap();
 
